@@ -25,7 +25,7 @@
 EXTENDS ExprTypes, Json, SequencesExt
 
 CONSTANTS Size,      \* "quick" | "thorough": which alphabets the generator uses
-          Fams       \* enabled generator families, subset of {"acc", "ctx", "use", "fj"}
+          Fams       \* enabled generator families, subset of {"acc", "ctx", "use", "fj", "mrg"}
 
 AllDev == {}                      \* deviations of the code as read from the design: none
 KnownDev == {"FilterAnyProp"}     \* named, disabled (fixed in the code)
@@ -397,7 +397,7 @@ BinaryOps(root) ==
           Op("call2L", "join", A), Op("call2R", "join", A),
           Op("fmt2", "", A), Op("fmt0", "", A), Op("idxOf", "", A), Op("idxBy", "", A)} : A \in Atoms(root)}
 OuterOps ==
-  {Op("prop", "a", LitNull), Op("idxn", "", LitNull), Op("star", "", LitNull),
+  {Op("prop", "a", LitNull), Op("prop", "c", LitNull), Op("idxn", "", LitNull), Op("star", "", LitNull),
    Op("cmpL", "<", LitN), Op("cmpL", "==", LitNull), Op("logL", "&&", LitS("s")),
    Op("call2L", "contains", LitS("s"))}
   \cup (IF Thorough THEN {Op("not", "", LitNull), Op("call1", "join", LitNull), Op("fmt1", "", LitNull),
@@ -433,8 +433,27 @@ PairsUse ==
 PairsFj ==
   {Pair("fj", NoEnv, NoEnv, Call("fromJSON", <<JLit(j)>>), Call("fromJSON", <<Prop(V("env"), "x")>>), 0)
      : j \in JLits \cup {[k |-> "jbroken"]}}
+\* Merge sites in both operand orders: l || r and l && r of two object literals; the loosening replaces ONE operand
+\* by an expression evaluating to an open object (github.event) or to a value of unknown type (fromJSON(env.x)).
+\* An access that only the replaced operand could supply (.c of {"c":1}) must stay accepted: open merged with
+\* closed stays open, whichever side the open one is on.
+MrgLits == {JObj(<<>>), JObj(<<JP("a", JNum)>>), JObj(<<JP("c", JNum)>>), JObj(<<JP("b", JStr)>>),
+            JObj(<<JP("a", JNum), JP("c", JStr)>>), JObj(<<JP("a", JObj(<<JP("a", JStr)>>))>>)}
+FJ(j) == Call("fromJSON", <<JLit(j)>>)
+JNames(j) == {j.props[i].n : i \in DOMAIN j.props}
+\* The two literals have no key in common: for a common key the code keeps the precise type of the remaining
+\* literal although the open operand may hold anything under it (Merge copies a property the open receiver lacks
+\* instead of merging it with the receiver's element type), so the replaced pair is not related by A.6 there;
+\* that case is examined at workflow level (include lists with a common key, tools/checks/c06.py).
+PairsMrg ==
+  {Pair("mrg", NoEnv, NoEnv, Log(x[1], FJ(x[2]), FJ(x[3])),
+        IF x[4] = "l" THEN Log(x[1], x[5], FJ(x[3])) ELSE Log(x[1], FJ(x[2]), x[5]), 0)
+     : x \in {y \in {"||", "&&"} \X MrgLits \X MrgLits \X {"l", "r"}
+                     \X {Prop(V("github"), "event"), Call("fromJSON", <<Prop(V("env"), "x")>>)}
+                : JNames(y[2]) \cap JNames(y[3]) = {}}}
 Pairs == (IF "acc" \in Fams THEN PairsAcc ELSE {}) \cup (IF "ctx" \in Fams THEN PairsCtx ELSE {})
          \cup (IF "use" \in Fams THEN PairsUse ELSE {}) \cup (IF "fj" \in Fams THEN PairsFj ELSE {})
+         \cup (IF "mrg" \in Fams THEN PairsMrg ELSE {})
 PairSeq == SetToSeq(Pairs)
 
 RECURSIVE ApplyAll(_, _, _)
@@ -450,7 +469,7 @@ Verdicts(f, d1, d2, r1, r2) ==
   [anymono  |-> (Accepted(d1) => Accepted(d2)),
    tmplmono |-> (AcceptedInTemplate(d1) => AcceptedInTemplate(d2)),
    typemono |-> (Accepted(d1) => Loosens(d1.ty, d2.ty)),
-   strong   |-> ((f # "fj") => (d2.errs \subseteq d1.errs \/ ~(d1.errs \subseteq d2.errs))),
+   strong   |-> ((f \notin {"fj", "mrg"}) => (d2.errs \subseteq d1.errs \/ ~(d1.errs \subseteq d2.errs))),
    devonly  |-> ((Accepted(r1) /\ ~Accepted(r2)) => \E x \in r2.errs : x.c = "filter-noobj"),
    asread   |-> (Accepted(r1) => Accepted(r2))]
 
@@ -505,7 +524,7 @@ Next ==
      /\ \E op \in UnaryOps \cup BinaryOps(Root) : Grow(op, cl, 1)
   \/ /\ fam = "use" /\ lv = 1
      /\ \E op \in OuterOps : Grow(op, cl, 2)
-  \/ /\ fam \in {"fj", "ctx"} /\ lv = 0 /\ cl <= 1
+  \/ /\ fam \in {"fj", "ctx", "mrg"} /\ lv = 0 /\ cl <= 1
      /\ \E op \in SmallOps : Grow(op, cl, 1)
 Spec == Init /\ [][Next]_vars
 
